@@ -87,7 +87,7 @@ func c03Calls() []fsx.Op {
 		{K: "Link", P: c03X, Q: c03Y}, {K: "Link", P: c03Y, Q: c03D2 + "/z"}, {K: "Symlink", P: "x", Q: c03D2 + "/ln"},
 		{K: "Truncate", P: c03X, N: 1}, {K: "Chmod", P: c03X, Perm: 0o600}, {K: "Chmod", P: c03D2, Perm: 0o700},
 		{K: "Chown", P: c03X, N: -1, M: -1}, {K: "Chown", P: c03X, N: 1001, M: 1001}, {K: "Chown", P: c03X, N: -1, M: 1002}, {K: "Lchown", P: c03X, N: 1002, M: -1},
-		{K: "Chtimes", P: c03X, N: 3}, {K: "Chdir", P: c03D2}, {K: "Chdir", P: c03X}, {K: "Readlink", P: c03X}, {K: "EvalSymlinks", P: c03X},
+		{K: "Chtimes", P: c03X, N: 3}, {K: "Chtimes", P: c03X, N: -1}, {K: "Chtimes", P: c03X, N: -2}, {K: "Chtimes", P: c03X, N: -3}, {K: "Chdir", P: c03D2}, {K: "Chdir", P: c03X}, {K: "Readlink", P: c03X}, {K: "EvalSymlinks", P: c03X},
 		// enumerations meeting directories that can be stat'ed but not opened, or opened but not searched
 		{K: "Glob", P: "/w/*/*"}, {K: "Glob", P: "/w/*/d2/*"}, {K: "Glob", P: "/w/d1/*/*"}, {K: "WalkDir", P: "/w"},
 	}
@@ -235,7 +235,7 @@ func init() {
 		Shards: shards(14, 16),
 		Meta: func(tier string) rt.Meta {
 			return rt.Meta{Level: "exploration", MinEvals: 20000, MinDistinct: 200,
-				Rule:        "differential against the kernel under a switched fsuid/fsgid (no supplementary groups) in a chroot on tmpfs: configurations /w/d1/d2/x and /w/e1/y with (owner, group, 9 permission bits) per node, acting user among owner / same-group / other / administrator / an ordinary user whose primary group is gid 0, umask among {0,002,022,027,077,0777,0222,0111}; 42 calls (incl. Glob patterns and WalkDir across the configured directories). Exhaustive part: for every call, every one of the 512 modes of EACH ONE of d1, d2, x, e1 (others fully open) x 6 owner/group assignments x 5 users (quick: a seed-dependent 1/8 of the modes); random part: all nodes random. Compared: allow/refuse, errno, returned values, and the whole tree afterwards (owner, group, mode of created objects). Signature = call | kind of x | actor class | the actor's effective rwx on each node | outcome; non-trivial = acting user is not the administrator.",
+				Rule:        "differential against the kernel under a switched fsuid/fsgid (no supplementary groups) in a chroot on tmpfs: configurations /w/d1/d2/x and /w/e1/y with (owner, group, 9 permission bits) per node, acting user among owner / same-group / other / administrator / an ordinary user whose primary group is gid 0, umask among {0,002,022,027,077,0777,0222,0111}; 45 calls (incl. Glob patterns and WalkDir across the configured directories, Chtimes with both, one or no time omitted). Exhaustive part: for every call, every one of the 512 modes of EACH ONE of d1, d2, x, e1 (others fully open) x 6 owner/group assignments x 5 users (quick: a seed-dependent 1/8 of the modes); random part: all nodes random. Compared: allow/refuse, errno, returned values, and the whole tree afterwards (owner, group, mode of created objects). Signature = call | kind of x | actor class | the actor's effective rwx on each node | outcome; non-trivial = acting user is not the administrator.",
 				Assumptions: []string{"only the 9 permission bits are assigned (no setuid/setgid/sticky)", "fs.protected_hardlinks=1 on this kernel: Link of a file the caller neither owns nor can read+write is excluded and counted"}}
 		},
 		Timeout: func(tier string) int {
